@@ -16,8 +16,19 @@ let both (f : Machine.mode -> n list Machine.outcome) : string =
   let b = show_out (f Machine.Wrapping) in
   if a = b then a else "MODE-DEPENDENT checked=" ^ a ^ " wrapping=" ^ b
 
+let show_cf (r : ColorFormat.cf_res) : string =
+  match r with
+  | ColorFormat.CfOk b -> "ok " ^ show_b b
+  | ColorFormat.CfErr ColorFormat.UnsupportedFormat -> "err UnsupportedFormat"
+  | ColorFormat.CfErr ColorFormat.UnalignedData -> "err UnalignedData"
+  | ColorFormat.CfErr ColorFormat.NotIndexed -> "err NotIndexed"
+  | ColorFormat.CfErr ColorFormat.NoPalette -> "err NoPalette"
+  | ColorFormat.CfErr ColorFormat.OutOfBoundsIndex -> "err OutOfBoundsIndex"
+
 let c19 (toks : string list) : string =
   match toks with
+  | ["cfdec"; f; d] -> show_cf (ColorFormat.cf_decode (n_of_int (int_of_string f)) (parse_b d))
+  | ["cfidx"; f; d; p] -> show_cf (ColorFormat.cf_decode_indexed (n_of_int (int_of_string f)) (parse_b d) (parse_b p))
   | ["color"; fmt; w; h; p] ->
     both (fun m -> Etc1.decode_pixel_data m (parse_b p) (n_of_int (int_of_string w)) (n_of_int (int_of_string h))
                      (n_of_int (int_of_string fmt)))
